@@ -685,19 +685,22 @@ fn multiset_minus(a: &[String], b: &[String]) -> Vec<String> {
 /// * witness data: LDK signs with auxiliary randomness drawn from the node's entropy source
 ///   (`sign_with_aux_rand`), and the reload consumes a different amount of entropy than the bounce, so
 ///   signatures differ while the signed transactions (txids) are the same;
-/// * `hold_times`: wall-clock measurements (attribution data, 100 ms units).
+/// * `hold_times`: wall-clock measurements (attribution data, 100 ms units);
+/// * the blinded hops of a `BlindedTail` (random blinding, see below).
 pub fn normalize_rendered(s: &str) -> String {
+	// (pattern, opening bracket, closing bracket, replacement up to and including the bracketed part)
+	const PATS: &[(&str, char, char, &str)] = &[
+		("witness: Witness: {", '{', '}', "witness: <..>"),
+		("hold_times: [", '[', ']', "hold_times: [..]"),
+		// a blinded path is built from the recipient's entropy source, which a reload advances differently
+		("blinded_tail: Some(BlindedTail {", '{', '}', "blinded_tail: Some(BlindedTail <..>"),
+	];
 	let mut out = String::with_capacity(s.len());
 	let mut rest = s;
 	loop {
-		let w = rest.find("witness: Witness: {");
-		let h = rest.find("hold_times: [");
-		let (pos, open, close, tag) = match (w, h) {
-			(None, None) => break,
-			(Some(w), Some(h)) if h < w => (h, '[', ']', "hold_times: [..]"),
-			(Some(w), _) => (w, '{', '}', "witness: <..>"),
-			(None, Some(h)) => (h, '[', ']', "hold_times: [..]"),
-		};
+		let first = PATS.iter().filter_map(|p| rest.find(p.0).map(|pos| (pos, p))).min_by_key(|(pos, _)| *pos);
+		let Some((pos, (_, open, close, tag))) = first else { break };
+		let (open, close) = (*open, *close);
 		out.push_str(&rest[..pos]);
 		out.push_str(tag);
 		let after = &rest[pos..];
